@@ -38,7 +38,7 @@
    harness accepts the int node as well as the zero-padded four-digit-year text there.
 
    Two state machines over one universe of <<type, value>>:
-     SpecC11:  Init -> Render (the three nodes) -> Parse (FromM of each)
+     SpecC11:  Init -> Render (the nodes of the three modes, plus readable as Ptime prints it) -> Parse (FromM of each)
      SpecC04:  Init -> Render -> PackStep -> UnpackStep -> Mutate (malformed variants of the packed
                bytes, classes of MichelineCodec!Mutants plus the 0x05 prefix, each with the verdict
                of Unpack and the stage that rejected it: "prefix", "decode" (not binary Micheline)
@@ -381,27 +381,28 @@ Universe == UNION {{<<t, v>> : v \in Vals(t, 0)} : t \in Types}
 \* ======================================================================================
 \*  state machines
 \* ======================================================================================
-VARIABLES ty, val, nodes, backs, packed, unp, muts, pc
-vars == <<ty, val, nodes, backs, packed, unp, muts, pc>>
+VARIABLES ty, val, nodes, backs, packed, legacy, unp, muts, pc
+vars == <<ty, val, nodes, backs, packed, legacy, unp, muts, pc>>
 Nil == <<FALSE, <<"nil">>, FALSE>>
 
 Init == \E c \in Universe : /\ ty = c[1] /\ val = c[2]
-                            /\ nodes = <<>> /\ backs = <<>> /\ packed = <<>> /\ unp = Nil /\ muts = {} /\ pc = "render"
+                            /\ nodes = <<>> /\ backs = <<>> /\ packed = <<>> /\ legacy = <<>> /\ unp = Nil /\ muts = {} /\ pc = "render"
 \* to_micheline_value in the three modes
 RenderStep == /\ pc = "render" /\ nodes' = [k \in 1..4 |-> ToM(AllModes[k], ty, val)] /\ pc' = "rendered"
-              /\ UNCHANGED <<ty, val, backs, packed, unp, muts>>
+              /\ UNCHANGED <<ty, val, backs, packed, legacy, unp, muts>>
 \* from_micheline_value of each rendering
 ParseStep == /\ pc = "rendered" /\ backs' = [k \in 1..4 |-> FromM(ty, nodes[k])] /\ pc' = "done"
-             /\ UNCHANGED <<ty, val, nodes, packed, unp, muts>>
-PackStep == /\ pc = "rendered" /\ packed' = <<5>> \o MC!Forge(nodes[2]) /\ pc' = "packed"
+             /\ UNCHANGED <<ty, val, nodes, packed, legacy, unp, muts>>
+\* `legacy` (exported only): what PACK was before combs were sequences - the binary form of the nested binary pairs
+PackStep == /\ pc = "rendered" /\ packed' = <<5>> \o MC!Forge(nodes[2]) /\ legacy' = <<5>> \o MC!Forge(nodes[3]) /\ pc' = "packed"
             /\ UNCHANGED <<ty, val, nodes, backs, unp, muts>>
 UnpackStep == /\ pc = "packed" /\ unp' = Unpack(ty, packed) /\ pc' = "unpacked"
-              /\ UNCHANGED <<ty, val, nodes, backs, packed, muts>>
+              /\ UNCHANGED <<ty, val, nodes, backs, packed, legacy, muts>>
 \* exported as <<class, detail, patch relative to packed, verdict>>
 MutateStep == /\ pc = "unpacked"
               /\ muts' = {<<m[1], m[2], MC!Patch(packed, m[3]), Unpack(ty, m[3])>> : m \in PMutants(nodes[2], Tail(packed))}
               /\ pc' = "done"
-              /\ UNCHANGED <<ty, val, nodes, backs, packed, unp>>
+              /\ UNCHANGED <<ty, val, nodes, backs, packed, legacy, unp>>
 SpecC11 == Init /\ [][RenderStep \/ ParseStep]_vars
 SpecC04 == Init /\ [][RenderStep \/ PackStep \/ UnpackStep \/ MutateStep]_vars
 
@@ -439,6 +440,8 @@ CmpAgrees == pc = "render" => \A i, j \in DOMAIN Keys :
 PackRoundTrip == pc \in {"unpacked", "done"} /\ packed # <<>> => unp = <<TRUE, val, FALSE>>
 \* 0x05, then the binary form of the optimized notation in which combs of four or more are sequences
 PackShape == pc = "packed" => packed = <<5>> \o MC!Forge(DeclToM("optimized", ty, val)) /\ packed = Pack(ty, val)
+\* data packed the old way (nested binary pairs) still unpacks to the value: the reader accepts every comb notation
+LegacyUnpacks == pc = "packed" => Unpack(ty, legacy) = <<TRUE, val, FALSE>>
 \* truncated, extended, non-minimal, unknown-tag, wrong-prefix inputs are not binary Micheline: None
 Strict == pc = "done" => \A m \in muts : m[1] \in StrictClasses => ~m[4][1] /\ m[4][2][2] \in {"prefix", "decode"}
 \* different values of a type pack differently
